@@ -103,3 +103,22 @@ def run(chk):
         t = canonicalize(v, utf8=False)
         if any(ch in t.replace('x y', '') for ch in ' \n\t'): chk.violation('whitespace#no insignificant whitespace', f'{t!r}', {})
         if canonicalize(v) != t.encode('utf-8'): chk.violation('utf8#bytes are the UTF-8 encoding of the canonical text', f'{v!r}', {})
+
+    # ---- history: a refused value leaves nothing behind -- the same container objects canonicalize normally once the offending leaf is replaced, whatever was refused before
+    def hist_cases():
+        for bad_ in (float('nan'), float('inf'), -float('inf'), 10**400):
+            for shape in ('list', 'dict', 'nested', 'shared'):
+                yield (repr(bad_)[:8], shape, bad_)
+
+    def hist_check(case):
+        name, shape, bad_ = case
+        inner = {'k': [1, bad_]}; outer = [inner, {'z': inner['k']}]
+        v = {'list': inner['k'], 'dict': inner, 'nested': outer, 'shared': {'a': inner, 'b': inner['k']}}[shape]
+        if out(lambda x: canonicalize(x, utf8=False), v) != 'REFUSED': return ('rfc8785#number:non-finite refused', f'{shape} holding {name} was not refused', {})
+        inner['k'][1] = 2            # the caller repairs its document in place and tries again
+        a = out(lambda x: canonicalize(x, utf8=False), v); b = out(canon, v)
+        if a != b: return ('history#refusal leaves no trace', f'after a refused attempt ({name} inside a {shape}) the repaired value canonicalizes to {a!r:.80}, specification {b!r:.80}', {})
+        for w in (v, [v, v], {'again': v}):
+            a = out(lambda x: canonicalize(x, utf8=False), w); b = out(canon, w)
+            if a != b: return ('history#refusal leaves no trace', f'after a refused attempt a value containing the same container objects canonicalizes to {a!r:.80}, specification {b!r:.80}', {})
+    chk.bounded('history: canonicalization after refused attempts on the same container objects', list(hist_cases()), hist_check, classify=lambda c: c[:2], bound='4 refused leaf values x 4 container shapes (incl. containers shared between members), repaired in place and retried')
